@@ -66,7 +66,7 @@ proof fn lemma_val_distinct(a: int, b: int)
 
 impl Sessions {
 
-// assumed contract (T6), discharged on the real body by Kani harness c12_group_ctr_get_or_init
+// assumed contract (T6), discharged on the real body by Kani harness c12_group_ctr_reserve (obligations seed_is_masked_random, reserve_fails_only_without_seed)
 #[verifier::external_body]
 pub fn get_or_init_global_group_data_ctr<C: Crypto>(&mut self, crypto: C) -> (r: Result<u32, Error>)
     ensures
